@@ -894,6 +894,12 @@ func (s *Subscription) Dispose() {
 // a subscription has indirect references, but has reached 0 indirectsent
 // references.
 func (s *Subscription) Unsend() {
+	// A subscription that is not yet sent, because it is still loading for
+	// an event of a subscription released together with it, has nothing to
+	// unsend, and must not be considered ready.
+	if s.state < stateSent {
+		return
+	}
 	verifSub("sub.unsend", s)
 	s.state = stateReady
 	s.indirectsent = 0
